@@ -81,8 +81,12 @@ def cross(run, name, part, parts):
         w = dict(format=name, direction="libpass->passlib", password=pw, rounds=rounds, hash=lh, explicit_salt=ssz)
         rp = f"import warnings; warnings.simplefilter('ignore')\nimport passlib.hash as PH\nprint(PH.{name}.verify({pw!r}, {lh!r}))"
         lhh = lp_make(name, rounds)
+        # libpass accepts a hash as text or bytes (StrOrBytes): a third of the hashes are handed over as bytes
+        as_arg = (lambda x: x.encode("ascii")) if i % 3 == 0 else (lambda x: x)
+        if i % 3 == 0:
+            run.count("hash_given_as_bytes")
         try:
-            r = dict(passlib=ph.verify(pw, lh), passlib_wrong=ph.verify(other_pw(pw), lh), own=lhh.verify(lh, pw), own_wrong=lhh.verify(lh, other_pw(pw)), ident=lhh.identify(lh),
+            r = dict(passlib=ph.verify(pw, lh), passlib_wrong=ph.verify(other_pw(pw), lh), own=lhh.verify(as_arg(lh), pw), own_wrong=lhh.verify(as_arg(lh), other_pw(pw)), ident=lhh.identify(as_arg(lh)),
                      pident=ph.identify(lh))
         except Exception as e:
             run.violation(f"C20|{name}|libpass-hash-not-understood|{type(e).__name__}|{lenc}|{'explicit-salt' if ssz is not None else 'own-salt'}",
@@ -106,8 +110,8 @@ def cross(run, name, part, parts):
             pass
         # needs_update: own fresh hash no; other cost yes
         try:
-            nu_own = lhh.needs_update(lh)
-            nu_other = lp_make(name, rounds + 1 if "bcrypt" not in name else (5 if rounds == 4 else 4)).needs_update(lh)
+            nu_own = lhh.needs_update(as_arg(lh))
+            nu_other = lp_make(name, rounds + 1 if "bcrypt" not in name else (5 if rounds == 4 else 4)).needs_update(as_arg(lh))
         except Exception as e:
             run.violation(f"C20|{name}|needs_update-raises|{type(e).__name__}", f"libpass needs_update raised {e}", w)
             continue
@@ -138,8 +142,8 @@ def cross(run, name, part, parts):
             w2 = dict(format=name, direction="passlib->libpass", password=pw, settings=slist[0], hash=phs, spelling=vlabel)
             rp2 = f"from libpass.hashers import *\n# libpass hasher for {name}\n"
             try:
-                ok, bad = lhh.verify(phs, pw), lhh.verify(phs, other_pw(pw))
-                ident = lhh.identify(phs)
+                ok, bad = lhh.verify(as_arg(phs), pw), lhh.verify(as_arg(phs), other_pw(pw))
+                ident = lhh.identify(as_arg(phs))
             except Exception as e:
                 run.violation(f"C20|{name}|passlib-hash-not-understood|{type(e).__name__}|{lenc}", f"libpass {name} raises {type(e).__name__} on a passlib-made hash ({vlabel}): {str(e)[:100]}", w2)
                 continue
@@ -149,7 +153,7 @@ def cross(run, name, part, parts):
                 run.violation(f"C20|{name}|passlib-hash|{'rejected' if ok is not True else 'wrong-password-accepted' if bad else 'not-identified'}|{lenc}|{vlabel}",
                               f"passlib-made {name} hash ({vlabel}, {len(secret)}-byte password): libpass verify={ok} wrong-password={bad} identify={ident}", w2)
             exp_nu = (5000 if vlabel.endswith("5000") else rounds) != rounds
-            if lhh.needs_update(phs) is not exp_nu:
+            if lhh.needs_update(as_arg(phs)) is not exp_nu:
                 run.violation(f"C20|{name}|needs_update|passlib-hash|expected-{exp_nu}", f"libpass {name}(rounds={rounds}).needs_update({vlabel} passlib hash) != {exp_nu}", w2)
 
 
@@ -235,6 +239,24 @@ def context(run):
                 run.violation(f"C20|context|verify|scheme-{j}-of-{k}", f"context {names}: hash of scheme {j} ({n_}): verify={v} wrong-password={bad}", dict(w, scheme=n_, hash=hs))
             if nu is not (j != 0):
                 run.violation(f"C20|context|needs_update|scheme-{j}-of-{k}|got-{nu}", f"context {names}: needs_update(hash of scheme {j}, {n_}) = {nu}, expected {j != 0}", dict(w, scheme=n_, hash=hs))
+        # hashes in the first scheme's format made elsewhere (another cost, passlib's hasher, implicit-rounds spelling): verified, no update asked
+        import passlib.hash as PH
+        first = names[0]
+        other_cost = cheap[first] + 1 if "bcrypt" not in first else (5 if cheap[first] == 4 else 4)
+        same_format = [("libpass-other-cost", lp_make(first, other_cost).hash(pw)), ("passlib-other-cost", getattr(PH, first).using(rounds=other_cost).hash(pw))]
+        if first.endswith("_crypt"):
+            same_format.append(("implicit-5000", getattr(PH, first).using(rounds=5000).hash(pw)))
+        for lab, hs in same_format:
+            try:
+                v, nu = ctx.verify(pw, hs), ctx.needs_update(hs)
+            except Exception as e:
+                run.violation(f"C20|context|raises|{type(e).__name__}", f"libpass context raised {e} on a {lab} hash of its first scheme", dict(w, hash=hs))
+                continue
+            run.count("context_same_format_cases")
+            run.case(("context", "same-format", lab, first), None)
+            if v is not True or nu is not False:
+                run.violation(f"C20|context|first-scheme-format|{lab}|verify-{v}-needs_update-{nu}",
+                              f"context {names}: a {first} hash made elsewhere ({lab}) gives verify={v} needs_update={nu}; the context asks for an update exactly for hashes not in its first scheme's format", dict(w, hash=hs, kind=lab))
         # foreign hashes
         foreign = H.get("md5_crypt").hash(pw)
         if ctx.verify(pw, foreign) is not False or ctx.needs_update(foreign) is not True:
@@ -256,6 +278,8 @@ def body(run):
     run.require("lenclass:long", 10)
     run.require("identify_cells", 500)
     run.require("context_cases", 30)
+    run.require("context_same_format_cases", 60)
+    run.require("hash_given_as_bytes", 50)
     run.assumptions += ["bcrypt passwords are limited to 72 bytes (the limit the bcrypt library itself enforces)",
                         "libpass BcryptSHA256Hasher implements the v=2 PHC spelling only; BcryptHasher the 2a/2b/2y idents"]
 
